@@ -343,11 +343,16 @@ fn judge(
             Verdict::Ok if named => mproblems.push(format!("{}: rg reports an error, the model does not", fs.name)),
             _ => {}
         }
-        // results: exactly those of searching the command's stdout (left open for a file whose command failed)
-        if flag != "q" && !named && *v != Verdict::Err {
+        // results: exactly those of searching the command's stdout — also for a file whose command failed
+        // (what it wrote before failing was searched; both drivers print it since 1ed0364)
+        if flag != "q" {
             let got = lines_of(&out.stdout, &fs.name);
             let want = lines_of(&reference.stdout, &fs.name);
-            if got != want {
+            // a failing command whose output does not end in a line terminator: the error arrives before the
+            // end of input is known, so the last, unterminated line is never searched — a prefix is owed
+            let unterminated_failure = named && !fs.out.is_empty() && fs.out.last() != Some(&b'\n');
+            let ok = if unterminated_failure { want.starts_with(&got) } else { got == want };
+            if !ok {
                 problems.push((format!("{}: results differ from searching the command's output: got {:?} want {:?}", fs.name,
                     got.iter().take(4).map(|l| show(&l[..l.len().min(80)])).collect::<Vec<_>>(),
                     want.iter().take(4).map(|l| show(&l[..l.len().min(80)])).collect::<Vec<_>>()), class_of(&fs.name)));
@@ -803,7 +808,7 @@ fn main() {
          missing/non-executable/directory command; z: rg -z on gzip/bzip2/xz valid, truncated, corrupted, empty, unrecognised names, \
          .zst without zstd; sel: 12 --pre-glob sets x --pre x -z on 5 files; pipes: random schedules of the two-pipe model. \
          Non-trivial: a failing and a succeeding command in the same run (pre, z), a failing child with output (lib), every sel case. \
-         Excluded from comparison: results of a file whose command failed; the error verdict when rg may or may not have seen EOF \
+         Excluded from comparison: the error verdict when rg may or may not have seen EOF \
          before stopping (small output with a match under -m1/-l/-q).",
     );
     let rg = args.rg.clone().expect("C18 needs --rg");
